@@ -24,11 +24,14 @@ mod split {
 
 #[dispatch]
 mod split_at {
-    use crate::CelValue;
+    use crate::{CelError, CelResult, CelValue};
 
-    fn split_at(this: String, at: i64) -> Vec<CelValue> {
-        let (left, right) = this.split_at(at as usize);
+    fn split_at(this: String, at: i64) -> CelResult<Vec<CelValue>> {
+        let (left, right) = usize::try_from(at)
+            .ok()
+            .and_then(|at| this.split_at_checked(at))
+            .ok_or_else(|| CelError::value("splitAt() index out of range"))?;
 
-        vec![left.into(), right.into()].into()
+        Ok(vec![left.into(), right.into()])
     }
 }
